@@ -5,6 +5,7 @@ import numpy as np
 
 from ..probes import Clock, Models, Losses, make_names
 from ..harness import storage_proxy, ImputerProxy
+from ..probes import InjectedFault
 from ..refs import mean_out
 from ..explref import decoded_subset
 from ..qnum import Q
@@ -283,6 +284,20 @@ def main(run):
                 force_arg = rnd.choice([force, np.bool_(force), int(force)])
                 upd_arg = rnd.choice([upd, np.bool_(upd), int(upd)])
                 replay["calls"].append({"ordinal": c, "force_explain": repr(force_arg), "update_storage": repr(upd_arg)})
+                if (force or c % il == 0) and c > lead and i % 5 == 2 and rnd.random() < 0.3:
+                    # HISTORY: a callback fails during a recomputation, the caller catches the error and the stream goes on; the
+                    # failed call keeps its ordinal (the schedule is stated in call ordinals), later calls are judged as usual
+                    clock.fail_at_next = rnd.randrange(2, 6)
+                    clock.reset()
+                    try:
+                        prev_ret = dict(e.explain_one(x, y, update_storage=upd_arg, force_explain=force_arg, verbose=False))
+                        clock.fail_at = None         # (the call ended before the failpoint was reached: an ordinary recomputation)
+                    except InjectedFault:
+                        run.count("interval-histories-with-a-failed-recomputation")
+                    if any(ev[0] == "storage.update" for ev in clock.log) and upd:
+                        stored.append((x, y))
+                    replay["calls"][-1]["fault"] = True
+                    continue
                 clock.reset()
                 if (i + c) % 4 == 1:      # optional arguments passed positionally in the documented order
                     ret = e.explain_one(x, y, None, upd_arg, force_arg, False)
